@@ -2,9 +2,9 @@ import OV.Model.C20Save
 import OV.Drivers.Loop
 /-! Line-protocol driver for C20.
 
-`C20 save <deep 0|1> <verbose 0|1> <k|-> <dir|-> <name> <files|-> <inits|->`
+`C20 save <cfg: chars 0|1: deep, refuse, keepNames, tqdm-importable> <verbose 0|1> <k|-> <dir|-> <name> <files|-> <inits|->`
   files: `f:seed:len;…` (data files present before the call; content = `gen seed len`)
-  inits: `name:sub:M:seed:len:np` | `name:sub:E:file:off:len:valid` | `name:sub:U` | `name:sub:A:j` (alias of the j-th), `;`-separated, in `model.graphs()` order
+  inits: `name:sub:M:seed:len:np[:tensorname]` | `name:sub:E:file:off:len:valid` | `name:sub:U` | `name:sub:A:j` (alias of the j-th), `;`-separated, in `model.graphs()` order
 `C20 layout <cur> <size,size,…|->`  →  `off:len,…`
 Output of `save`: `res=… | calls=… | trace=… | cb=… | cv=… | heap=… | fs=… | load=…` -/
 namespace OV.Drivers.C20
@@ -37,6 +37,7 @@ structure PI where
   sub : Bool
   ref : Option TRef
   alias : Option Nat := none   -- `A:<j>`: the same tensor object as the j-th initializer of the line
+  tname : Option String := none  -- the tensor's own `name` when it differs from the initializer's
 
 def parseInit (t : String) : Option PI :=
   match t.splitOn ":" with
@@ -47,6 +48,9 @@ def parseInit (t : String) : Option PI :=
   | [n, sub, "M", seed, len, np] => do
     let seed ← seed.toNat?; let len ← len.toNat?
     pure { name := n, sub := sub == "1", ref := some (.mem (gen seed len) (np == "1")) }
+  | [n, sub, "M", seed, len, np, tn] => do
+    let seed ← seed.toNat?; let len ← len.toNat?
+    pure { name := n, sub := sub == "1", ref := some (.mem (gen seed len) (np == "1")), tname := some tn }
   | [n, sub, "E", f, off, len, valid] => do
     let off ← off.toNat?; let len ← len.toNat?
     pure { name := n, sub := sub == "1", ref := some (.ext f off len (valid == "1")) }
@@ -65,7 +69,7 @@ def mkModelAux : List PI → Nat → Model
       { m with sig := (p.name, p.sub) :: m.sig, cv := none :: m.cv }
     | some t =>
       let m := mkModelAux ps (next + 1)
-      { sig := (p.name, p.sub) :: m.sig, cv := some next :: m.cv, heap := t :: m.heap, tnames := p.name :: m.tnames }
+      { sig := (p.name, p.sub) :: m.sig, cv := some next :: m.cv, heap := t :: m.heap, tnames := p.tname.getD p.name :: m.tnames }
 
 def mkModel (pis : List PI) (_ : Nat) : Model :=
   let m := mkModelAux pis 0
@@ -113,7 +117,10 @@ def handle (args : List String) : String :=
       let m := mkModel pis 0
       let kk : Option Nat := if k == "-" then none else k.toNat?
       let dir := if dir == "-" then "" else dir
-      let r := runSave (deep == "1") m dir name (verbose == "1") fs kk
+      let cfg : Cfg := { deep := deep.startsWith "1", refuse := (deep.drop 1).toString.startsWith "1",
+                         keepNames := (deep.drop 2).toString.startsWith "1",
+                         tqdm := !((deep.drop 3).toString.startsWith "0") }
+      let r := runSave cfg m dir name (verbose == "1") fs kk
       let res := match r.res with | .ok _ => "ok" | .error e => showErr e
       let m' := r.model m
       let cb := (match r.st.cbTotal with | some t => toString t | none => "-") ++ ";" ++
@@ -128,7 +135,8 @@ def handle (args : List String) : String :=
         "cv=" ++ (if m'.cv == m.cv then "same" else "diff"),
         "heap=" ++ ",".intercalate (m'.heap.map (showObj r.st.fs)),
         "fs=" ++ ",".intercalate (sortStr (r.st.fs.map fun (x : String × Content) => s!"{x.1}={showContent x.2}")),
-        s!"load={ld}"]
+        s!"load={ld}",
+        "tn=" ++ ",".intercalate r.st.tn]
     | _, _ => "bad-op"
   | ["layout", cur, sizes] =>
     match cur.toNat?, (if sizes == "-" then some [] else (sizes.splitOn ",").mapM (·.toNat?)) with
